@@ -8,6 +8,7 @@ import TypedpyModel.Spec.Conforms
 import TypedpyModel.Spec.WfDecl
 import TypedpyModel.Sem.Entry
 import TypedpyModel.Sem.Decimal
+import TypedpyModel.Sem.EntryD
 namespace Typedpy.Drive.Construct
 open Lean (Json)
 open Typedpy Typedpy.Wire
@@ -25,29 +26,39 @@ def fieldErrs (O : Oracles) (cls : FieldDecl) (kw : List (String × PyVal)) : Li
         | .error e => some (errName e)
   | _ => []
 
-def entryOfJson (j : Json) : Except String EntryOp := do
+def deserOptsOfJson (j : Json) : Except String DeserOpts := do
+  match optField j "opts" with
+  | none => pure {}
+  | some o => pure { keepUndefined := ← optBool o "keepUndefined" true,
+                     ignoreInvalidAddl := ← optBool o "ignoreInvalidAddl" true }
+
+def entryOfJson (j : Json) : Except String EntryOpD := do
   let op ← (← j.getObjVal? "op").getStr?
   let kw ← match optField j "kw" with | none => pure [] | some x => kwOfJson x
   match op with
-  | "copy" => pure .copy
-  | "deepcopy" => pure .deepcopy
-  | "pickle" => pure .pickle
-  | "shallowClone" => pure (.shallowClone kw)
-  | "fromOtherClass" => pure (.fromOtherClass (← strList j "ignore") kw)
-  | "fromMapping" => pure (.fromMapping (← strList j "ignore") kw)
-  | "castTo" => pure .castTo
+  | "copy" => pure (.plain .copy)
+  | "deepcopy" => pure (.plain .deepcopy)
+  | "pickle" => pure (.plain .pickle)
+  | "shallowClone" => pure (.plain (.shallowClone kw))
+  | "fromOtherClass" => pure (.plain (.fromOtherClass (← strList j "ignore") kw))
+  | "fromMapping" => pure (.plain (.fromMapping (← strList j "ignore") kw))
+  | "castTo" => pure (.plain .castTo)
+  | "deser" => pure (.deser (← deserOptsOfJson j) (← valOfJson (← j.getObjVal? "doc")))
+  | "reser" => pure (.reser (← deserOptsOfJson j))
   | s => throw s!"entry op {s}"
 
 /-- exception classes of every failing field at the FIRST failing step of a chain (the real constructor applies
     defaults before arguments, so with several invalid fields only the set is comparable) -/
-def chainErrs (O : Oracles) (cls : FieldDecl) : PyVal → List EntryOp → List String
+def chainErrs (O : Oracles) (cls : FieldDecl) : PyVal → List EntryOpD → List String
   | _, [] => []
   | x, op :: rest =>
-    match applyEntryH O cls x op with
+    match applyEntryD O cls x op with
     | .ok y => chainErrs O cls y rest
-    | .error _ => match entryKw cls x op with
-      | some kw => fieldErrs O cls kw
-      | none => []
+    | .error _ => match op with
+      | .plain p => (match entryKw cls x p with
+        | some kw => fieldErrs O cls kw
+        | none => [])
+      | _ => []
 
 /-- the verdicts of the Lean format functions (`ipv4Ok`, `hostNameOk`) on every string the case's oracle table lists
     for their tokens: the harness compares them with its own independent implementation and with typedpy -/
@@ -135,7 +146,7 @@ def run (j : Json) : Except String Json := do
     | some x => do
       let ops ← (← x.getArr?).toList.mapM entryOfJson
       let r := match res with
-        | .ok inst => runChainH O cls inst ops
+        | .ok inst => runChainD O cls inst ops
         | .error e => .error e
       let errs := match res with
         | .ok inst => chainErrs O cls inst ops
